@@ -98,6 +98,10 @@ Qed.
 Lemma view_log_app a b : view_log (a ++ b) = view_log a ++ view_log b.
 Proof. apply map_app. Qed.
 
+(* afkak's two-bit codec mask agrees with the protocol's three-bit field on the codecs 0..3 *)
+Lemma land7_land3 a c : Z.land a 7 = c -> Z.land a 3 = Z.land c 3.
+Proof. intros <-. rewrite <- Z.land_assoc. reflexivity. Qed.
+
 (* ------------------------------------------------------------------ trees *)
 Lemma kdepth_forest_cons t ts : kdepth_forest (t :: ts) = Nat.max (kdepth t) (kdepth_forest ts).
 Proof. reflexivity. Qed.
@@ -148,7 +152,7 @@ Section MsgSet.
           unfold long_bytes. assumption. }
         cbn [enc_ktree log_of]. rewrite dec_loop_entry by assumption.
         rewrite dec_message_spec by assumption. unfold dec_payload.
-        match goal with Hc : (Z.land (k_attr m) 3 =? 0) = true |- _ => apply Z.eqb_eq in Hc; unfold ATTRIBUTE_CODEC_MASK; rewrite Hc end.
+        match goal with Hc : (Z.land (k_attr m) 7 =? 0) = true |- _ => apply Z.eqb_eq in Hc; apply land7_land3 in Hc; cbn [Z.land] in Hc; unfold ATTRIBUTE_CODEC_MASK; rewrite Hc end.
         change (0 =? CODEC_NONE) with true. cbv iota beta. rewrite IHts. reflexivity.
       + (* a compressed wrapper *)
         cbn [wf_ktree_c kdepth] in *. split_andb. unfold wf_kwrap_c in *. split_andb.
@@ -162,7 +166,8 @@ Section MsgSet.
           match goal with Hx : (_ || _) = true |- _ => apply orb_prop in Hx; destruct Hx as [Hx|Hx]; apply Z.eqb_eq in Hx; cbn in Hx; auto end. }
         cbn [enc_ktree log_of]. fold inner. fold w. rewrite dec_loop_entry by assumption.
         rewrite dec_message_spec by assumption. unfold dec_payload. cbn [k_magic k_attr k_key k_value k_ts w].
-        match goal with Hc : (Z.land (k_attr w) 3 =? codec) = true |- _ => apply Z.eqb_eq in Hc; cbn [k_attr w] in Hc; unfold ATTRIBUTE_CODEC_MASK; rewrite Hc end.
+        match goal with Hc : (Z.land (k_attr w) 7 =? codec) = true |- _ => apply Z.eqb_eq in Hc; cbn [k_attr w] in Hc; apply land7_land3 in Hc; unfold ATTRIBUTE_CODEC_MASK; rewrite Hc end.
+        assert (Hc3 : Z.land codec 3 = codec) by (destruct codec_known as [-> | ->]; reflexivity). rewrite Hc3.
         assert (Hk : dec_set d orc inner = (view_log (log_of_forest kids), None)).
         { apply IHd; [unfold kdepth_forest in *; lia|assumption]. }
         pose proof (codec_roundtrip inner) as Hrt. unfold decompress in Hrt.
